@@ -289,8 +289,10 @@ RelabelX(x, a, b) == IF x = a THEN b ELSE IF x = b THEN a ELSE x
 
 SwapCell(s, h1, h2) ==
   IF h1 = h2 THEN [s EXCEPT !.ret = Void] ELSE
-  LET i1 == FoldLeft(LAMBDA ic, hf : IF At(ic, hf) = h1 THEN Put(ic, hf, h2) ELSE ic, s.inc, At(s.cells, h1))
-      i2 == FoldLeft(LAMBDA ic, hf : IF At(ic, hf) = h2 THEN Put(ic, hf, h1) ELSE ic, i1, At(s.cells, h2))
+  (* decide first, then write (fix 6f7fb77): a halfface listed by both cells is relabeled once *)
+  LET toH2 == {hf \in Rng(At(s.cells, h1)) : At(s.inc, hf) = h1}
+      toH1 == {hf \in Rng(At(s.cells, h2)) : At(s.inc, hf) = h2}
+      i2 == [i \in 1 .. Len(s.inc) |-> IF (i - 1) \in toH1 THEN h1 ELSE IF (i - 1) \in toH2 THEN h2 ELSE s.inc[i]]
   IN [s EXCEPT !.inc = IF s.fbu THEN i2 ELSE @,
                !.cells = SwapAt(@, h1, h2), !.cdel = SwapAt(@, h1, h2),
                !.pC = SwapAt(@, h1, h2), !.gC = SwapAt(@, h1, h2), !.ret = Void]
